@@ -96,10 +96,22 @@ EncodeClauses(e) ==
         ELSE {}
    ELSE {})
   \cup
-  (* C04: length field = body bytes emitted; the object reports the same *)
-  (IF P("C04") /\ T \in FrameTypes /\ e.res = "ok" /\ HeaderConforms(T, v, app)
-   THEN (IF LenFieldOf(T, app) # CorrectLen(T, app) THEN {<<"C04.wire-length", "none">>} ELSE {})
-        \cup (IF e.vpost[LenName(T)] # CorrectLen(T, app) THEN {<<"C04.object-length", "none">>} ELSE {})
+  (* C04: length field = body bytes emitted; the object reports the same.  Judged where the   *)
+  (* header is the pinned one - or where THIS message was rendered with the pinned header     *)
+  (* elsewhere in the history (then the offsets of the layout are meaningful for this encoder  *)
+  (* and a frame that does not start with its header is history-dependent garbage, not a        *)
+  (* consistent layout change, which is C02's): both renderings are judged.                     *)
+  (IF P("C04") /\ T \in FrameTypes /\ e.res = "ok"
+   THEN LET conf == HeaderConforms(T, v, app)
+            seen == v \in DOMAIN F
+            confF == seen /\ HeaderConforms(T, v, F[v])
+            longEnough(w) == Len(w) >= BodyOff(T) + TrailerLen(T)
+        IN (IF conf \/ (confF /\ longEnough(app))
+            THEN (IF LenFieldOf(T, app) # CorrectLen(T, app) THEN {<<"C04.wire-length", "none">>} ELSE {})
+                 \cup (IF e.vpost[LenName(T)] # CorrectLen(T, app) THEN {<<"C04.object-length", "none">>} ELSE {})
+            ELSE {})
+           \cup (IF conf /\ seen /\ ~confF /\ F[v] # app /\ longEnough(F[v]) /\ LenFieldOf(T, F[v]) # CorrectLen(T, F[v])
+                 THEN {<<"C04.wire-length", "none">>} ELSE {})
    ELSE {})
   \cup
   (* C05: checksum = algorithm over exactly this frame's bytes *)
